@@ -57,7 +57,7 @@ func runC06(c *Ctx) {
 	}
 	R.Role("C06.R1", "writes in the Text arm", nText, 1)
 	if nw := len(sc.S.Writes); nw > 0 {
-		c06TokenizerConfig(sc)
+		c06TokenizerConfig(sc, "C06.R4", "the tokenizer is reconfigured or handed on: the delivered text may differ from the input's text (e.g. CDATA sections delivered as text)")
 		R.OK("C06.R3", "all-writes-in-arms", fmt.Sprintf("(*Policy).sanitize: %d destination writes, each inside exactly one token-type arm", nw), c.P.Pos(sc.S.Fn.Pos()), "checked per write")
 	}
 
@@ -170,11 +170,11 @@ func runC06(c *Ctx) {
 }
 
 // c06TokenizerConfig (C06.R4): only Next/Token/Err/Raw are called on the tokenizer.
-func c06TokenizerConfig(sc *SC) {
+func c06TokenizerConfig(sc *SC, rule, why string) {
 	R := sc.c.R
 	tk := sc.S.Tokenizer
 	if tk == nil || tk.Referrers() == nil {
-		R.Unknown("C06.R4", "tokenizer", "(*Policy).sanitize: the tokenizer", "", "tokenizer value not recognised")
+		R.Unknown(rule, "tokenizer", "(*Policy).sanitize: the tokenizer", "", "tokenizer value not recognised")
 		return
 	}
 	allowed := map[string]bool{"Next": true, "Token": true, "Err": true, "Raw": true}
@@ -198,14 +198,14 @@ func c06TokenizerConfig(sc *SC) {
 				}
 				n++
 				okC := cal != nil && len(x.Common().Args) > 0 && x.Common().Args[0] == v && allowed[name]
-				R.Check(okC, "C06.R4", "tokenizer-call:"+name, "(*Policy).sanitize: tokenizer."+name, sc.c.P.Pos(x.Pos()), "reads the token stream", "the tokenizer is reconfigured or handed on: the delivered text may differ from the input's text (e.g. CDATA sections delivered as text)")
+				R.Check(okC, rule, "tokenizer-call:"+name, "(*Policy).sanitize: tokenizer."+name, sc.c.P.Pos(x.Pos()), "reads the token stream", why)
 			case *ssa.DebugRef:
 			default:
 				n++
-				R.Fail("C06.R4", "tokenizer-use:"+fmt.Sprintf("%T", r), "(*Policy).sanitize: use of the tokenizer", sc.c.P.Pos(r.Pos()), "the tokenizer value is stored or passed on")
+				R.Fail(rule, "tokenizer-use:"+fmt.Sprintf("%T", r), "(*Policy).sanitize: use of the tokenizer", sc.c.P.Pos(r.Pos()), "the tokenizer value is stored or passed on")
 			}
 		}
 	}
 	visit(tk)
-	R.Role("C06.R4", "uses of the tokenizer", n, 2)
+	R.Role(rule, "uses of the tokenizer", n, 2)
 }
